@@ -1,4 +1,6 @@
 import Norad.Props.C04
+import Norad.Props.C01Bridge
+import Norad.Props.C01Stores
 #print axioms RT.rtFont_valid
 #print axioms RT.rtFont_numbers
 #print axioms RT.norad_output_is_fixed_point
@@ -14,3 +16,7 @@ import Norad.Props.C04
 #print axioms RT.model_absent_files_read_as_empty
 #print axioms RT.source_absent_files_read_as_empty
 #print axioms RT.source_gates_match_defaults
+#print axioms RT.Bridge.noradNorm
+#print axioms RT.Bridge.norad_output_is_fixed_point_glif
+#print axioms RT.Bridge.data_files_roundtrip
+#print axioms RT.Bridge.image_files_roundtrip
